@@ -120,11 +120,32 @@ def d3(cx: Cx, ob: Ob) -> None:
         ob.undecide("add_record does not call _match_record")
         return
     lenm = ("call", ("builtin", "len"), (matched,), ())
+    # "nothing can match" established from the lookup tables instead of the scan: with exact comparison
+    # (case_sensitive) a record matches an existing one only through a name both list; when the incoming record's
+    # prefix is in no CURIE-side table, its URI prefix in no URI-side table and it brings no synonyms, no name is
+    # shared (the tables hold every name of every record: IDX, C05-D1)
+    rec_ = ("param", "record")
+    IDX_FACTS = [
+        lambda a, pol: op(a) == "cmp" and a[1] == "in" and a[2] == ("attr", rec_, "prefix") and a[3] in (("attr", me, "synonym_to_prefix"), ("attr", me, "prefix_map")) and pol is False,
+        lambda a, pol: op(a) == "cmp" and a[1] == "in" and a[2] == ("attr", rec_, "uri_prefix") and a[3] in (("attr", me, "reverse_prefix_map"), ("attr", me, "trie")) and pol is False,
+        lambda a, pol: a == ("attr", rec_, "prefix_synonyms") and pol is False,
+        lambda a, pol: a == ("attr", rec_, "uri_prefix_synonyms") and pol is False,
+        lambda a, pol: a == ("param", "case_sensitive") and pol is True,
+    ]
+
+    def index_proves_no_match(atom_pols) -> bool:
+        return all(any(f(a, pol) for a, pol in atom_pols) for f in IDX_FACTS)
+
     for ev, ctx in s.walk():
         if ev.kind != "expr" or op(ev.a) != "call":
             continue
         c = ev.a
         if op(c[1]) == "attr" and c[1][2] == "append" and c[1][1] == ("attr", me, "records"):
+            from ..rules import guard_atoms as _ga
+
+            if index_proves_no_match(_ga(ctx.guards)):
+                ob.site(f"{where(fn, ev.line)} {fn.qualname}", "append on the fast path: the lookup tables show that no name of the record is in use")
+                continue
             # the append path must be reachable only with zero matches
             ok = False
             for g in ctx.guards:
@@ -177,6 +198,8 @@ def d3(cx: Cx, ob: Ob) -> None:
             for fv in itertools.product((True, False), repeat=len(free)):
                 asg = {a: sem[a](n, mg) for a in atoms if sem[a] is not None}
                 asg.update(dict(zip(free, fv)))
+                if n > 0 and index_proves_no_match(list(asg.items())):
+                    continue  # not a possible state: the tables show that nothing matches
                 for p in s.paths:
                     gs = [g for g in p.events if g.kind == "guard"]
                     if not all(formula_eval(g.a, asg) == g.b for g in gs):
